@@ -286,7 +286,7 @@ def _to_bits(rng, kind, force):
         L = 24 if l is None else l
         ref = lambda P: _bits(P['a'], L, 0)
     elif kind == 'fxp':
-        l = rng.choice([None, 20, 32])   # l > bit_length: bits of a + 2^bit_length (unspecified), not generated
+        l = rng.choice([None, 20, 32, 40])
         a = rvals(rng, kind, s, rng.choice(['small', 'integral']))
         L = 32 if l is None else l
         ref = lambda P: _bits(np.vectorize(lambda x: int(round(x * 2**F)), otypes='O')(P['a']) if P['a'].size else np.zeros(s, dtype=object), L, 0).astype(float)
@@ -1304,6 +1304,9 @@ def _update(rng, kind, force):
     else:
         key, w = 0, 'basic'
     vs = np.empty(s)[key].shape
+    while kind == 'fxp' and math.prod(vs) == 0:    # zero-size float arrays cannot be constructed (see report)
+        key, w = _rkey(rng, s)
+        vs = np.empty(s)[key].shape if w in ('basic', 'ellipsis', 'intarray') else (0,)
     mode = rng.choice(['secarr', 'secscalar', 'public'])
     v = rvals(rng, kind, vs if mode == 'secarr' else ())
 
